@@ -18,7 +18,13 @@ Theorem C09_verify_on_clone_panics : forall w x i it,
   live_inst w i = Some it -> i_original it = false -> x_unwinding x = false ->
   snd (step w {| ev_ctx := x; ev_base := BVerify i |}) = ("P:" ++ msg_verify_clone)%string /\
   snd (step w {| ev_ctx := x; ev_base := BNvid i |}) = ("P:" ++ msg_nvid_clone)%string.
-Proof. intros w x i it Hl Ho Hu. unfold step. cbn [ev_base ev_ctx]. rewrite Hl, Ho, Hu. split; reflexivity. Qed.
+Proof.
+  intros w x i it Hl Ho Hu. unfold step, releasing. cbn [ev_base ev_ctx]. rewrite Hl.
+  destruct (i_calls it); rewrite ?Ho.
+  - unfold step_core. cbn [ev_base ev_ctx]. rewrite Hl, Ho, Hu. split; reflexivity.
+  - unfold step_core. cbn [ev_base ev_ctx]. rewrite (live_inst_release w i it Hl). cbn [clear_calls i_original]. rewrite Ho, Hu.
+    split; reflexivity.
+Qed.
 
 (* the original's verification: skipped while unwinding (std) / after an own
    mock panic (no_std); then panics if a clone is alive; then (std) if on a foreign
